@@ -171,7 +171,7 @@ def pool():
 def discharge(obls, timeout_s=20):
     """decide every undecided obligation in place"""
     todo = [o for o in obls if o.verdict is None]
-    jobs = [(o.smt2, timeout_s * 1000, getattr(o, "_show_smt", [])) for o in todo]
+    jobs = [(o.smt2, min(timeout_s, getattr(o, "timeout_s", timeout_s)) * 1000, getattr(o, "_show_smt", [])) for o in todo]      # an obligation may ask for LESS time (best-effort explorations)
     if not jobs:
         return obls
     if len(jobs) <= 2 or os.environ.get("PYVC_SERIAL"):
